@@ -164,7 +164,8 @@ def _machine(ctx):
             else: ops.append([t])
         case = dict(machine=True, members=members, ops=ops, extra=extra, own_cfgs=own)
         ctx.case(case, nontrivial=any(members)); ctx.count("machine_case"); ctx.count(f"machine_ops={min(len(ops) // 5 * 5, 20)}+")
-        ds = [MazeDataset(MazeDatasetConfig(name=f"m{k}", grid_n=2, n_mazes=len(l)), [mz(i) for i in l]) for k, l in enumerate(members)]
+        srcs = [[mz(i) for i in l] for l in members]          # the caller's own lists, which it goes on using after the datasets are built
+        ds = [MazeDataset(MazeDatasetConfig(name=f"m{k}", grid_n=2, n_mazes=len(l)), srcs[k]) for k, l in enumerate(members)]
         cfgs = [d.cfg for d in ds] if own else [MazeDatasetConfig(name=f"m{k}", grid_n=2, n_mazes=len(l)) for k, l in enumerate(members)]
         cfgs = cfgs + [MazeDatasetConfig(name=f"x{k}", grid_n=2, n_mazes=n) for k, n in enumerate(extra)]
         # the constructor takes any iterable of datasets (it stores list(maze_datasets)): lists, tuples and one-shot iterators alike
@@ -172,6 +173,9 @@ def _machine(ctx):
         arg = {"list": lambda: list(ds), "tuple": lambda: tuple(ds), "generator": lambda: (d for d in ds), "map": lambda: map(lambda d: d, ds), "iter": lambda: iter(ds)}[how]()
         case["members_passed_as"] = how; ctx.count(f"members_passed_as={how}")
         c = MazeDatasetCollection(MazeDatasetCollectionConfig(name="c", maze_dataset_configs=cfgs), arg)
+        for src in srcs:                                       # ... it recycles them: a dataset must not have kept the caller's list object
+            if src: src.append(src[0]); src.reverse()
+            else: src.append(mz(fresh(1)[0]))
         ident = {}
         def idof(m):
             for k, v in pool.items():
@@ -198,7 +202,12 @@ def _machine(ctx):
                     cur[op[1]] = list(op[2]); dirty.add(op[1]); outs.append(None)
                 elif t == "mupd": c.maze_datasets[op[1]].update_self_config(); dirty.discard(op[1]); outs.append(None)
                 elif t == "cupd": c.update_self_config(); dirty.clear(); outs.append(None)
-                elif t == "mazes": outs.append([idof(m) for m in c.mazes])
+                elif t == "mazes":
+                    outs.append([idof(m) for m in c.mazes])
+                    if (k + case_no) % 2 == 0 and len(c.mazes) > 1:
+                        # the caller wraps the flattened list in a dataset of its own and rearranges THAT: the collection must not follow
+                        flat = MazeDataset(MazeDatasetConfig(name="flat", grid_n=2, n_mazes=len(c.mazes)), c.mazes)
+                        flat.mazes.reverse(); flat.mazes.pop()
                 elif t == "get": outs.append(idof(c[op[1]]))
                 elif t == "len": outs.append(len(c))
                 elif t == "lengths": outs.append([int(x) for x in c.dataset_lengths])
